@@ -131,6 +131,10 @@ structure Facts where
   unknownOptionRejected : Bool
   /-- package-level mutable variables of the non-test packages, and whether every access is under its mutex -/
   sharedGlobals : List String
+  /-- sql/parse.go `Schema`: no dangling delimiter, two-word keywords need white space, the type variable is cleared per column -/
+  schemaGrammarStrict : Bool
+  /-- internal/unquote.go: only string literals are unquoted -/
+  unquoteOnlyStrings : Bool
   sharedGlobalsLocked : Bool
   /-- `New`: the duplicate-name check and the insertion into `tables` are one critical section -/
   registerAtomic : Bool
